@@ -86,6 +86,8 @@ class Script(System):
                 val = float(env.cells.loc[cid, "res"])
                 env.cells.loc[cid, "res"] = val - 1.0
                 o["near"].append([a.id, "ate", cid, int(round(val * 2))])
+        if hasattr(m, "acc"):
+            o["near"].append(["acc", m.acc])
         if getattr(m, "bag", None) is not None:
             m.bag.append(m.random.randint(0, 9))
             o["near"].append(["bag", len(m.bag), sum(m.bag)])
@@ -123,7 +125,10 @@ class Extra(System):
 
     def execute(self):
         m = self.model
-        m.systems["script"].out.setdefault("extra", []).append([self.id, m.random.randint(0, 10 ** 6)])
+        v = m.random.randint(0, 10 ** 6)
+        m.systems["script"].out.setdefault("extra", []).append([self.id, v])
+        # an accumulator that depends on the ORDER in which the equal-priority systems ran (it stays in the model)
+        m.acc = (getattr(m, "acc", 7) * 31 + sum(map(ord, self.id)) * 1009 + v) % 1000003
 
 
 class Hook(System):
